@@ -104,14 +104,21 @@ func runMutant(exe, root, repo string, m Mutant) string {
 	code := cmd.ProcessState.ExitCode()
 	s := string(out)
 	hit := false
+	stat := map[string]int{}
 	for _, ln := range strings.Split(s, "\n") {
 		if strings.HasPrefix(ln, "FAILED-OBLIGATION") && strings.Contains(ln, m.Expect) {
 			hit = true
+			if a, b := strings.Index(ln, "["), strings.Index(ln, "]"); a >= 0 && b > a {
+				stat[ln[a+1:b]]++
+			}
+		}
+		if strings.HasPrefix(ln, "REPLAYED") {
+			stat["replayed"]++
 		}
 	}
 	switch {
 	case code == 1 && hit:
-		return fmt.Sprintf("killed   %-40s %s: %s fails", m.Name, m.Property, m.Expect)
+		return fmt.Sprintf("killed   %-40s %s: %s fails %v", m.Name, m.Property, m.Expect, stat)
 	case code == 1:
 		var fl []string
 		for _, ln := range strings.Split(s, "\n") {
